@@ -1,3 +1,6 @@
+model/Feed.vo model/Feed.glob model/Feed.v.beautified model/Feed.required_vo: model/Feed.v model/Prelude.vo model/U128.vo
+model/Feed.vio: model/Feed.v model/Prelude.vio model/U128.vio
+model/Feed.vos model/Feed.vok model/Feed.required_vos: model/Feed.v model/Prelude.vos model/U128.vos
 model/Prelude.vo model/Prelude.glob model/Prelude.v.beautified model/Prelude.required_vo: model/Prelude.v 
 model/Prelude.vio: model/Prelude.v 
 model/Prelude.vos model/Prelude.vok model/Prelude.required_vos: model/Prelude.v 
@@ -7,12 +10,24 @@ model/SInt.vos model/SInt.vok model/SInt.required_vos: model/SInt.v model/Prelud
 model/U128.vo model/U128.glob model/U128.v.beautified model/U128.required_vo: model/U128.v model/Prelude.vo
 model/U128.vio: model/U128.v model/Prelude.vio
 model/U128.vos model/U128.vok model/U128.required_vos: model/U128.v model/Prelude.vos
+model/Vamm.vo model/Vamm.glob model/Vamm.v.beautified model/Vamm.required_vo: model/Vamm.v model/Prelude.vo model/U128.vo model/SInt.vo model/Feed.vo
+model/Vamm.vio: model/Vamm.v model/Prelude.vio model/U128.vio model/SInt.vio model/Feed.vio
+model/Vamm.vos model/Vamm.vok model/Vamm.required_vos: model/Vamm.v model/Prelude.vos model/U128.vos model/SInt.vos model/Feed.vos
+model/VammOps.vo model/VammOps.glob model/VammOps.v.beautified model/VammOps.required_vo: model/VammOps.v model/Prelude.vo model/U128.vo model/SInt.vo model/Feed.vo model/Vamm.vo
+model/VammOps.vio: model/VammOps.v model/Prelude.vio model/U128.vio model/SInt.vio model/Feed.vio model/Vamm.vio
+model/VammOps.vos model/VammOps.vok model/VammOps.required_vos: model/VammOps.v model/Prelude.vos model/U128.vos model/SInt.vos model/Feed.vos model/Vamm.vos
 proofs/SIntFacts.vo proofs/SIntFacts.glob proofs/SIntFacts.v.beautified proofs/SIntFacts.required_vo: proofs/SIntFacts.v model/Prelude.vo model/U128.vo model/SInt.vo proofs/Tactics.vo
 proofs/SIntFacts.vio: proofs/SIntFacts.v model/Prelude.vio model/U128.vio model/SInt.vio proofs/Tactics.vio
 proofs/SIntFacts.vos proofs/SIntFacts.vok proofs/SIntFacts.required_vos: proofs/SIntFacts.v model/Prelude.vos model/U128.vos model/SInt.vos proofs/Tactics.vos
 proofs/Tactics.vo proofs/Tactics.glob proofs/Tactics.v.beautified proofs/Tactics.required_vo: proofs/Tactics.v model/Prelude.vo model/U128.vo
 proofs/Tactics.vio: proofs/Tactics.v model/Prelude.vio model/U128.vio
 proofs/Tactics.vos proofs/Tactics.vok proofs/Tactics.required_vos: proofs/Tactics.v model/Prelude.vos model/U128.vos
+proofs/VammFacts.vo proofs/VammFacts.glob proofs/VammFacts.v.beautified proofs/VammFacts.required_vo: proofs/VammFacts.v model/Prelude.vo model/U128.vo model/SInt.vo model/Feed.vo model/Vamm.vo proofs/Tactics.vo proofs/SIntFacts.vo model/VammOps.vo
+proofs/VammFacts.vio: proofs/VammFacts.v model/Prelude.vio model/U128.vio model/SInt.vio model/Feed.vio model/Vamm.vio proofs/Tactics.vio proofs/SIntFacts.vio model/VammOps.vio
+proofs/VammFacts.vos proofs/VammFacts.vok proofs/VammFacts.required_vos: proofs/VammFacts.v model/Prelude.vos model/U128.vos model/SInt.vos model/Feed.vos model/Vamm.vos proofs/Tactics.vos proofs/SIntFacts.vos model/VammOps.vos
+props/C01.vo props/C01.glob props/C01.v.beautified props/C01.required_vo: props/C01.v model/Prelude.vo model/U128.vo model/SInt.vo model/Feed.vo model/Vamm.vo model/VammOps.vo proofs/Tactics.vo proofs/SIntFacts.vo proofs/VammFacts.vo
+props/C01.vio: props/C01.v model/Prelude.vio model/U128.vio model/SInt.vio model/Feed.vio model/Vamm.vio model/VammOps.vio proofs/Tactics.vio proofs/SIntFacts.vio proofs/VammFacts.vio
+props/C01.vos props/C01.vok props/C01.required_vos: props/C01.v model/Prelude.vos model/U128.vos model/SInt.vos model/Feed.vos model/Vamm.vos model/VammOps.vos proofs/Tactics.vos proofs/SIntFacts.vos proofs/VammFacts.vos
 props/C19.vo props/C19.glob props/C19.v.beautified props/C19.required_vo: props/C19.v model/Prelude.vo model/U128.vo model/SInt.vo proofs/Tactics.vo proofs/SIntFacts.vo
 props/C19.vio: props/C19.v model/Prelude.vio model/U128.vio model/SInt.vio proofs/Tactics.vio proofs/SIntFacts.vio
 props/C19.vos props/C19.vok props/C19.required_vos: props/C19.v model/Prelude.vos model/U128.vos model/SInt.vos proofs/Tactics.vos proofs/SIntFacts.vos
